@@ -359,13 +359,15 @@ def run(rep, info, model, tier, seed):
 
 
 def replay(body):
-    sc = fam.unjson_sc(body["scenario"])
-    if sc.get("kind"):
+    from . import c06
+    if (body["scenario"] or {}).get("kind"):
         print("in-process family: re-run check.py C03 quick")
         return 2
-    sc["_acts"] = [tuple(a) for a in sc["app"][2]]
-    sc["_keys"] = list(sc["keys"])
-    r = simnet.run_impl(sc)
-    res = oracle(sc, simnet.canon_trace(r.trace), dict(escaped=r.escaped))
-    print("REPLAY:", ("VIOLATION reproduced: %s" % res[0]) if res else "property holds on this input")
-    return 1 if res else 0
+
+    def fix(sc):
+        if "_acts" in sc:
+            sc["_acts"] = [tuple(a) for a in sc["_acts"]]
+        if "_params" in sc:
+            sc["_params"] = tuple(sc["_params"])
+        return sc
+    return fam.replay_generic(body, {"C03:api-calls": oracle, "C03:failing-writes": fault_oracle, "C03:frames-on-compressed-connections": c06.oracle}, fix)
